@@ -475,6 +475,19 @@ func (e *Env) RGuard(siblings ...string) {
 				if ev.Kind != schema.KChild || ev.Src == "" {
 					continue
 				}
+				// whatever the child, a guard on it lets the present child through: `n.F != nil`,
+				// never `n.F == nil` (or the else branch of != nil) and never a constant
+				absent := (strings.Contains(ev.Guard, "n."+ev.Src+" == nil") && !ev.Else) || (strings.Contains(ev.Guard, "n."+ev.Src+" != nil") && ev.Else)
+				constFalse := false
+				for _, cj := range strings.Split(ev.Guard, " && ") {
+					if cj = strings.TrimSpace(cj); cj == "false" || strings.HasPrefix(cj, "false && ") {
+						constFalse = true
+					}
+				}
+				if absent || constFalse {
+					e.Run.Violation("R-GUARD", fmt.Sprintf("%s %s.%s is converted when it is present", sn, tn, ev.Src), e.Prog.Pos(ev.Pos),
+						fmt.Sprintf("the child is handled under `%s` (else branch: %v): a %s.%s that is there is skipped — the converted tree loses it", ev.Guard, ev.Else, tn, ev.Src))
+				}
 				if !e.optionalChild(tn, ev.Src) {
 					continue
 				}
